@@ -52,6 +52,7 @@ def make_config(seed, tier="quick"):
         p_hook=r.choice([0.0, 0.0, 0.3]),
         hook_names=r.sample(["on_state_change", "on_message", "on_logon", "on_logout", "on_disconnect", "on_connect"],
                             r.randint(1, 4)),
+        mid_hook_stimuli=r.random() < 0.3,  # local sends / disconnects while a hook of the Logon handling is parked
         p_act=0.9,
         p_more=r.choice([0.0, 0.3]),
         p_delay=r.choice([0.0, 0.0, 0.1]),
@@ -91,6 +92,9 @@ class GateSim(PeerSim):
                     n_on_disconnect=0, first_frame_seen=False)
 
     def hook_p(self, label, hname):
+        if self.cfg.get("mid_hook_stimuli") and hname in ("on_state_change", "on_connect", "on_logon") \
+                and self.hook_counts[(label, hname)] <= 2:
+            return 0.8  # park the first hooks of the connection: the transient Logon states become reachable
         return self.cfg["p_hook"] if hname in self.cfg["hook_names"] else 0.0
 
     def peer_event(self, kind):
@@ -271,6 +275,10 @@ class GateSim(PeerSim):
     def enabled_actions(self):
         out = self.net_enabled()
         cfg = self.cfg
+        if cfg.get("mid_hook_stimuli") and self.pending_hooks and self.n_stim < cfg["n_stim"] and \
+                (self.cur is None or self.cur.get("n_overlap", 0) < 3) and \
+                self.eut.connection_state >= ConnectionState.NETWORK_CONN_ESTABLISHED:
+            out.append((("overlap",), 1.5))
         if not self.prefix_done:
             self.drive_prefix()
             return out
@@ -311,7 +319,12 @@ class GateSim(PeerSim):
             pd = int(r.random() < 0.15)
             return [cls, t, defect, pd, r.randint(1, 3)]
         if cls == "send":
-            return [cls, r.choice(SEND_TYPES), 0, 0, 0]
+            types = SEND_TYPES
+            if self.eut_role == "acceptor":
+                # an acceptor-class endpoint whose application sends a Logon of its own acts in a role the
+                # library does not intend (crossing Logons): not judged either way, so not generated
+                types = [t for t in SEND_TYPES if t != "A"]
+            return [cls, r.choice(types), 0, 0, 0]
         if cls == "app_disconnect":
             return [cls, r.choice(["plain", "logout", "logout_empty"]), 0, 0, 0]
         return [cls, "x", 0, 0, 0]
@@ -324,12 +337,14 @@ class GateSim(PeerSim):
         return super().concretize(proto)
 
     def can_fire_family(self, a):
-        if not self.prefix_done or self.n_stim >= self.cfg["n_stim"]:
+        if self.n_stim >= self.cfg["n_stim"]:
+            return False
+        if not self.prefix_done and not (a[0] == "overlap" and self.cfg.get("mid_hook_stimuli") and self.pending_hooks):
             return False
         if a[0] == "stim":
             return self.cur is None and self.quiet()
         if a[0] == "overlap":
-            return self.cur is not None
+            return self.cur is not None or bool(self.cfg.get("mid_hook_stimuli") and self.pending_hooks)
         return False
 
     def fire_family(self, a):
@@ -338,6 +353,14 @@ class GateSim(PeerSim):
         self.n_stim += 1
         _, cls, x, y, z, w = a
         if a[0] == "overlap":
+            if self.cur is None:
+                # a stimulus while a hook is parked (no window of its own: only the gate invariants judge it)
+                lv0 = self.live()
+                self.cur = dict(cls="mid_hook", x=x, y=y, ev0=self.evno, E=lv0.next_num_in, out=lv0.next_num_out,
+                                state=self.eut.connection_state, complete=self.ep["complete"], epoch=self.epoch,
+                                delivered=len(self.eut.delivered), writes=len(self.writes.get("E", [])),
+                                stored=self.journal.stored(), disconnected=self.ep["disconnected"], overlap=True)
+                self.fault("stimulus_while_a_hook_is_parked")
             self.cur["overlap"] = True
             self.cur["n_overlap"] = self.cur.get("n_overlap", 0) + 1
             self.fault("overlapping_stimulus_" + cls)
